@@ -334,6 +334,7 @@ class PyEval(MiniEval):
                     it = self.ev(g.iter, env1)
                     if isinstance(it, dict):
                         it = list(it)
+                    it = self.ordered(it)
                     if not isinstance(it, (list, tuple)):
                         raise Unsupported(f"comprehension over {it!r}")
                     for item in it:
@@ -351,6 +352,7 @@ class PyEval(MiniEval):
             it = self.ev(g.iter, env)
             if isinstance(it, dict):
                 it = list(it)  # insertion order, as in Python
+            it = self.ordered(it)
             if not isinstance(it, (list, tuple)):
                 raise Unsupported(f"comprehension over {it!r}")
             out = []
@@ -693,6 +695,15 @@ class PyEval(MiniEval):
                 return {"keys": set(recv), "values": list(recv.values()), "items": list(recv.items())}[m]
             if isinstance(recv, dict) and m == "setdefault" and 1 <= len(node.args) <= 2 and not node.keywords:
                 return recv.setdefault(*A())
+            if isinstance(recv, dict) and m == "popitem" and not node.args:
+                if not recv:
+                    raise Raised("popitem(): dictionary is empty", "KeyError")
+                return recv.popitem()  # LIFO, as in Python
+            if isinstance(recv, dict) and m == "clear" and not node.args:
+                recv.clear()
+                return None
+            if fn == "dict.fromkeys" and 1 <= len(node.args) <= 2 and isinstance(A()[0], (list, tuple, dict)):
+                return dict.fromkeys(list(A()[0]), *(A()[1:]))
             if isinstance(recv, (list, tuple)) and m in ("index", "count") and len(node.args) == 1 and not node.keywords:
                 try:
                     return getattr(recv, m)(A()[0])
@@ -814,16 +825,16 @@ class PyEval(MiniEval):
             return list(reversed(A()[0]))
         if fn in ("cast",) and len(node.args) == 2:
             return self.ev(node.args[1], env)  # the type argument is not evaluated
-        if fn in ("list", "tuple") and len(node.args) == 1 and isinstance(A()[0], (list, tuple)):
-            return list(A()[0]) if fn == "list" else tuple(A()[0])
+        if fn in ("list", "tuple") and len(node.args) == 1 and isinstance(A()[0], (list, tuple, dict)):
+            return list(A()[0]) if fn == "list" else tuple(A()[0])  # of a dict: its keys, in insertion order
         if fn in ("list", "tuple") and len(node.args) == 1 and isinstance(A()[0], (set, frozenset)):
             xs = sorted(A()[0], key=repr)  # any order: callers of set->list conversions must not depend on it
             return xs if fn == "list" else tuple(xs)
         if fn in ("set", "frozenset") and not node.keywords:
             if not node.args:
                 return set()
-            if isinstance(A()[0], (list, tuple, set, frozenset)):
-                return set(A()[0])
+            if isinstance(A()[0], (list, tuple, set, frozenset, dict)):
+                return set(A()[0])  # of a dict: its keys
         if fn in ("min", "max") and node.args and all(isinstance(x, (int, float)) for x in A()):
             return (min if fn == "min" else max)(A())
         if fn == "sum" and len(node.args) == 1 and isinstance(A()[0], list) and all(isinstance(x, (int, float)) for x in A()[0]):
@@ -920,6 +931,13 @@ class PyEval(MiniEval):
 
     def run_function(self, f: FuncInfo, env: dict) -> tuple[str, Any]:
         """('return', v) | ('raise', class name) | ('fall', None)"""
+        # the receiver of a method knows its class: calls of sibling helper methods (`self._helper(x)`) are then interpreted
+        # too instead of being treated as opaque no-ops (a helper extracted from the method must not change the verdict)
+        if f.cls is not None and "staticmethod" not in f.decorator_names():
+            ps0 = f.node.args.posonlyargs + f.node.args.args
+            recv0 = env.get(ps0[0].arg) if ps0 else None
+            if isinstance(recv0, Tok) and "__classes__" not in recv0.attrs:
+                recv0.attrs["__classes__"] = f.cls.mro()
         try:
             return self.run(f.node.body, env)
         except Raised as r:
